@@ -158,8 +158,8 @@ class Case:
 def texts(case, vk, v, i):
     """(Display text, Debug text) of the value (or of the value a wrapper wraps), as Python str; None if n/a."""
     k = C.KINDS[vk]
-    if k.disp is not None:
-        return k.disp(v, case.refs, i), k.dbg(v, case.refs, i)
+    if k.dbg is not None:
+        return (k.disp(v, case.refs, i) if k.disp is not None else None), k.dbg(v, case.refs, i)
     if vk in ("disp_str", "dbg_str"):
         return v, case.refs["str_dbg"][i]
     if vk in ("disp_dd", "dbg_dd"):
@@ -258,7 +258,12 @@ def expected_post(case, t, r, names):
     return out
 
 
-def guard_of(mode, level):
+STATIC_FEATURE_CAP = 3      # harness feature `static_info` = tracing/max_level_info
+
+
+def guard_of(mode, level, static=5):
+    if LEVELNUM[level] > static:
+        return False            # compiled out: the static filtering stage
     if mode in ("always", "sometimes"):
         return True
     if mode in ("never", "dyn"):
@@ -267,11 +272,13 @@ def guard_of(mode, level):
     return LEVELNUM[level] <= n
 
 
-def check_record(case, t, rec, mode, parent_id):
+def check_record(case, t, rec, mode, parent_id, static=5):
     """Oracle: list of human-readable failures of the property on one (template, round, collector) observation."""
     bad = []
     r = rec["r"]
-    g = guard_of(mode, t.level)
+    g = guard_of(mode, t.level, static)
+    if static < 5:
+        mode = "%s + static max level %d" % (mode, static)
     if rec["ret"] == "panic":
         return ["the invocation panicked"]
     if t.kind == "enabled":
@@ -353,7 +360,8 @@ VTY = {"str": "(TRef TStr)", "string": "TString", "box_str": "(TBox TStr)", "ref
        "ref_u32": "(TRef (TPrim U32))", "refref_i8": "(TRef (TRef (TPrim I8)))", "mut_u16": "(TRefMut (TPrim U16))",
        "box_u64": "(TBox (TPrim U64))", "box_ref_i128": "(TBox (TRef (TPrim I128)))", "ref_f32": "(TRef (TPrim F32))",
        "ref_bool": "(TRef (TPrim PBool))", "disp_str": "TDisplayValue", "dbg_str": "TDebugValue", "disp_dd": "TDisplayValue",
-       "dbg_dd": "TDebugValue", "args": "TArguments", "empty": "TEmpty", "dd": "TOther", "wr_nz_u16": "(TWrapping (TNonZero U16))",
+       "dbg_dd": "TDebugValue", "args": "TArguments", "empty": "TEmpty", "dd": "TOther", "opt_u8": "TOther",
+       "wr_nz_u16": "(TWrapping (TNonZero U16))",
        "f32": "(TPrim F32)", "f64": "(TPrim F64)", "bool": "(TPrim PBool)"}
 for _p in C.INTS:
     VTY[_p] = "(TPrim %s)" % PRIMC[_p]
@@ -422,7 +430,7 @@ def coq_rvalue(case, vk, slot, r):
         pl = "(PByteStr %s)" % cbytes(v)
     elif dom == "err":
         pl = "(PErr [%s])" % ";".join(cbytes(s.encode("utf-8")) for s in v)
-    if vk in ("disp_str", "dbg_str", "disp_dd", "dbg_dd", "args", "dd"):
+    if vk in ("disp_str", "dbg_str", "disp_dd", "dbg_dd", "args", "dd", "opt_u8"):
         pl = "PNothing"
     return "(mk_rv %s %s %s %s)" % (VTY[vk], pl, cbytes((d or "").encode("utf-8")), cbytes((g or "").encode("utf-8")))
 
@@ -452,18 +460,18 @@ def coq_fields(case, items, trailing, fmt, r):
     return "(mk_fields [%s] %s %s)" % ("; ".join(coq_item(case, it, r) for it in items), "true" if trailing else "false", f)
 
 
-def coq_collector(mode):
+def coq_collector(mode, static=5):
     if mode == "always":
-        return "(mk_coll 5 5 Always true)"
+        return "(mk_coll %d 5 Always true)" % static
     if mode == "sometimes":
-        return "(mk_coll 5 5 Sometimes true)"
+        return "(mk_coll %d 5 Sometimes true)" % static
     if mode == "never":
-        return "(mk_coll 5 5 Never true)"
+        return "(mk_coll %d 5 Never true)" % static
     if mode == "dyn":
-        return "(mk_coll 5 5 Sometimes false)"
+        return "(mk_coll %d 5 Sometimes false)" % static
     if mode.startswith("caps"):
-        return "(mk_coll 5 %d Sometimes true)" % int(mode[4:])
-    return "(mk_coll 5 %d Always true)" % int(mode[3:])
+        return "(mk_coll %d %d Sometimes true)" % (static, int(mode[4:]))
+    return "(mk_coll %d %d Always true)" % (static, int(mode[3:]))
 
 
 def prefix_string(t):
@@ -477,10 +485,10 @@ def prefix_string(t):
     return ",".join(p)
 
 
-def coq_case(case, t, r, mode):
+def coq_case(case, t, r, mode, static=5):
     if t.kind == "enabled":
         items = [dict(it, form="sh", tick=None) for it in t.items]
-        return "cE %s %d %s" % (coq_fields(case, items, False, None, r), LEVELNUM[t.level], coq_collector(mode))
+        return "cE %s %d %s" % (coq_fields(case, items, False, None, r), LEVELNUM[t.level], coq_collector(mode, static))
     names = [it["name"] for it in t.items]
     ops = []
     for op in t.post:
@@ -509,7 +517,7 @@ def coq_case(case, t, r, mode):
             ops.append("PRecordAll %s" % coq_fields(case, op["items"], False, None, r))
     inv = "(mk_inv %s \"%s\" %d %s %s)" % ("MEvent" if t.kind == "event" else "MSpan", prefix_string(t), LEVELNUM[t.level],
                                           "true" if t.brace else "false", coq_fields(case, t.items, t.trailing, t.fmt, r))
-    return "cC %s %s [%s]" % (inv, coq_collector(mode), "; ".join(ops))
+    return "cC %s %s [%s]" % (inv, coq_collector(mode, static), "; ".join(ops))
 
 
 def impl_visit_canon(v):
@@ -563,16 +571,31 @@ def describe(t):
     return {"id": t.id, "group": t.group, "rust": C.rust_of(t).strip().split("\n")[1:-1]}
 
 
+def load_regressions(tpls):
+    """corpus/C10/regressions.json: minimised (template, collector, round) cases that once exposed a defect or killed a
+    mutant.  A template is named by its Rust text (ids move when the generator grows)."""
+    path = os.path.join(vlib.VERIF, "corpus", "C10", "regressions.json")
+    if not os.path.exists(path):
+        return []
+    by_rust = {"\n".join(describe(t)["rust"]): t for t in tpls}
+    out = []
+    for e in json.load(open(path)):
+        t = by_rust.get("\n".join(e["rust"]))
+        out.append((e, t))
+    return out
+
+
 def run(ctx):
     rep = Report(ctx)
     rep.rule = ("corpus: every span/event macro (span!, event!, 5+5 level shorthands, enabled!/event_enabled!/span_enabled!, record_all!) x every "
                 "name:/target:/parent: prefix set x 4 field-list shapes; every field form (k=v, dotted, r#, literal, {CONST}, shorthand, dotted shorthand) "
                 "x every value type (15 primitives, 12 NonZero, Wrapping, str/String/Box<str>, [u8], 5 error kinds, &/&&/&mut/Box, display/debug wrappers, "
-                "Arguments, Empty); ? and % on every form; 133 multi-field invocations (2-64 fields, with/without message, brace form, trailing comma); "
-                "span follow-ups (declared / undeclared / foreign Field / hand-built ValueSet with None and foreign entries). Payloads: all integer "
-                "boundaries of every width, float specials, Unicode/escape strings, then seeded random. Collectors: always / sometimes+true / never / "
-                "sometimes+false / hint caps. non-trivial = distinct (macro, prefix set, brace, field-form multiset, value-type multiset, has-message) "
-                "tuple observed enabled with at least one field or message")
+                "Arguments, Empty; Option<T> through `?`); ? and % on every form; 133 multi-field invocations (2-64 fields, with/without message, brace "
+                "form, trailing comma; positional / named / captured format arguments); span follow-ups (declared / undeclared / foreign Field / "
+                "hand-built ValueSet with None and foreign entries). Payloads: all integer boundaries of every width, float specials, Unicode/escape "
+                "strings, then seeded random. Collectors: always / sometimes+true / never / sometimes+false / hint caps; the whole corpus a second time "
+                "compiled with tracing's `max_level_info` (static stage). non-trivial = distinct (macro, prefix set, brace, field-form multiset, "
+                "value-type multiset, has-message) tuple observed enabled with at least one field or message")
     rep.trusted_base = [
         "Coq 8.16.1 kernel + vm_compute (no native_compute)",
         "translators/values.py + rsparse.py (shape recognition of field.rs / macros.rs / span.rs; fails closed via gen_unrecognised = [])",
@@ -583,7 +606,8 @@ def run(ctx):
     rep.assumptions = ["feature `log` off (with `log` on and no collector ever set, the disabled branch formats fields for the log record: C18's documented behaviour)",
                        "usize/isize are 64-bit", "`x as f64` is exact on representable values (IEEE fpext); NaN compared as NaN, not by payload",
                        "theorems cover the modelled form grammar; which forwarding arm rustc picks for a token sequence is covered by the corpus only",
-                       "value Display/Debug impls are pure (the model identifies a &dyn Debug with the text it prints)"]
+                       "value Display/Debug impls are pure (the model identifies a &dyn Debug with the text it prints)",
+                       "verification hooks (`#[cfg(tracing_verif)]` yield points, no callback installed) are ignored by the translator"]
     # ---- leg B1: translator
     text, unrec = values_tr.main(ctx.repo, None)
     gen_if_changed(os.path.join(vlib.COQ, "gen", "Gen_values.v"), text)
@@ -600,31 +624,58 @@ def run(ctx):
     data_path = os.path.join(ctx.work, "data.txt")
     with open(data_path, "w") as f:
         f.write(data_file(D))
-    builds = [False] + ([True] if ctx.thorough() else [])
     # two process runs with different phase orders: first-hit registration under each kind of collector,
     # and interest / max-level rebuilds when the collector changes
     plans = [["always:%d" % R, "never:2", "dyn:2", "cap0:1", "cap2:2", "sometimes:3:5", "caps3:2:1", "cap4:1:3"],
              ["never:1:7", "caps1:1:2", "sometimes:2:9", "dyn:1:4", "always:2:11", "cap3:1:6"]]
     if ctx.thorough():
         plans.append(["dyn:2:13", "always:3:17", "never:2:1", "caps5:2:3", "cap1:2:8", "sometimes:%d" % R])
-    runs = []
-    for rel in builds:
-        ok, paths, log = cargo_build(ctx, "fields", ["h_fields"], release=rel)
+    # the static stage: same corpus, tracing compiled with max_level_info
+    static_plans = [["always:3:2", "sometimes:2:8", "cap5:1:1", "caps2:1:4", "never:1", "dyn:1:6"]]
+    if ctx.thorough():
+        static_plans.append(["dyn:1:3", "caps4:2:9", "always:%d" % R])
+    runs = []             # (profile, plan index, plan, output, static cap)
+
+    def build_and_run(binname, features, rel, plist, static):
+        ok, paths, log = cargo_build(ctx, "fields", [binname], release=rel, features=features)
+        tag = binname + ("-release" if rel else "")
         if not ok:
-            rep.tie("build:h_fields" + ("-release" if rel else ""), False, vlib.last_error(log))
-            return rep
-        for pi, plan in enumerate(plans):
-            rc, out = run_bin(paths["h_fields"], [data_path] + plan, timeout=900)
+            rep.tie("build:" + tag, False, vlib.last_error(log))
+            return False
+        # regression corpus first (normal build only)
+        if static == 5 and not rel:
+            for e, t in load_regressions(tpls):
+                rep.count("corpus")
+                if t is None:
+                    rep.count("corpus:stale")
+                    ctx.log("corpus/C10: no template matches %s" % e.get("why", "?"))
+                    continue
+                rc, out = run_bin(paths[binname], [data_path, "--only", str(t.id), "%s:1:%d" % (e["mode"], e["round"] % R)], timeout=120)
+                if rc != 0:
+                    rep.tie("run:corpus", False, "rc=%d %s" % (rc, vlib.last_error(out)))
+                    continue
+                runs.append(("corpus", 0, [e["mode"]], out, 5))
+        for pi, plan in enumerate(plist):
+            rc, out = run_bin(paths[binname], [data_path] + plan, timeout=900)
             if rc != 0:
-                rep.tie("run:h_fields", False, "rc=%d %s" % (rc, vlib.last_error(out)))
-                return rep
-            runs.append(("release" if rel else "debug", pi, plan, out))
+                rep.tie("run:" + tag, False, "rc=%d %s" % (rc, vlib.last_error(out)))
+                return False
+            runs.append((("release" if rel else "debug") + ("-static" if static < 5 else ""), pi, plan, out, static))
+        return True
+
+    for rel in [False] + ([True] if ctx.thorough() else []):
+        if not build_and_run("h_fields", None, rel, plans, 5):
+            return rep
+    if not build_and_run("h_fields_static", ["static_info"], False, static_plans, STATIC_FEATURE_CAP):
+        return rep
     # ---- oracle over every observation
     case = None
-    model_cases = {}      # key -> (template, r, mode, impl record)
+    model_cases = {}      # key -> (template, impl record, refs)
     n_model_target = 6000 if ctx.thorough() else 2600
+    n_static_target = n_model_target // 5
+    n_static = 0
     seen_tpl = set()
-    for prof, pi, plan, out in runs:
+    for prof, pi, plan, out, static in runs:
         refs = {}
         phase_mode = {}
         phase_parent = {}
@@ -635,6 +686,11 @@ def run(ctx):
             if "ref" in rec:
                 refs[rec["ref"]] = [bytes.fromhex(x).decode("utf-8") for x in rec["v"]]
                 continue
+            if "static_max" in rec:
+                rep.count("static_max:%d" % rec["static_max"])
+                if rec["static_max"] != static:
+                    rep.tie("harness:static-max-level", False, "%s build reports STATIC_MAX_LEVEL %s, expected %d" % (prof, rec["static_max"], static))
+                continue
             if "phase" in rec:
                 phase_mode[rec["phase"]] = rec["mode"]
                 phase_parent[rec["phase"]] = rec["parent_id"]
@@ -644,9 +700,11 @@ def run(ctx):
             mode = phase_mode[rec["ph"]]
             rep.evaluations += 1
             rep.traces_validated += 1
-            rep.count("collector:" + mode.rstrip("0123456789"))
-            g = guard_of(mode, t.level)
+            rep.count("collector:" + mode.rstrip("0123456789") + ("+static" if static < 5 else ""))
+            g = guard_of(mode, t.level, static)
             rep.count("enabled" if g else "disabled")
+            if static < 5 and LEVELNUM[t.level] > static:
+                rep.count("disabled:static-max-level")
             if (t.id, mode) not in seen_tpl:
                 seen_tpl.add((t.id, mode))
                 rep.count("macro:" + t.macro)
@@ -654,17 +712,25 @@ def run(ctx):
             if g and (t.items or t.fmt):
                 rep.nontrivial.add((t.macro, prefix_string(t), t.brace, tuple(sorted((i["form"], i["nk"], i.get("sigil")) for i in t.items)),
                                     tuple(sorted(i["vk"] for i in t.items)), t.fmt is not None))
-            bad = check_record(case, t, rec, mode, phase_parent[rec["ph"]])
+            bad = check_record(case, t, rec, mode, phase_parent[rec["ph"]], static)
+            binname = "h_fields_static" if static < 5 else "h_fields"
             for b in bad[:2]:
                 rep.violation("%s [%s!, template %d, round %d, collector %s, %s build]" % (b, t.macro, t.id, rec["r"], mode, prof),
-                              {"template": describe(t), "round": rec["r"], "collector": mode, "profile": prof, "observed": rec,
-                               "replay_cmd": "h_fields <data> --only %d %s:1:%d   (data = seed %d, R = %d)" % (t.id, mode, rec["r"], ctx.seed, R)})
+                              {"template": describe(t), "round": rec["r"], "collector": mode, "profile": prof, "static_max_level": static,
+                               "observed": rec,
+                               "replay_cmd": "%s <data> --only %d %s:1:%d   (data = seed %d, R = %d)" % (binname, t.id, mode, rec["r"], ctx.seed, R)})
             # choose cases for the model: every template under `always` at two rounds + a seeded sample of everything else
-            key = (t.id, rec["r"], mode)
-            if prof == "debug" and key not in model_cases:
-                if (mode == "always" and pi == 0 and rec["r"] in ((t.id * 7) % R, (t.id * 3 + 11) % R)) or ctx.rng.random() < 0.012:
-                    if len(model_cases) < n_model_target:
-                        model_cases[key] = (t, rec, refs)
+            key = (t.id, rec["r"], mode, static)
+            if prof in ("debug", "debug-static", "corpus") and key not in model_cases:
+                if static < 5:
+                    take = n_static < n_static_target and ctx.rng.random() < 0.25
+                    n_static += take
+                else:
+                    take = prof == "corpus" or (mode == "always" and pi == 0 and rec["r"] in ((t.id * 7) % R, (t.id * 3 + 11) % R)) \
+                        or ctx.rng.random() < 0.012
+                    take = take and len(model_cases) - n_static < n_model_target
+                if take:
+                    model_cases[key] = (t, rec, refs)
     ctx.log("oracle done: %d observations, %d violations" % (rep.evaluations, len(rep.violations)))
     # ---- model evaluation on the same cases
     try:
@@ -675,9 +741,10 @@ def run(ctx):
             cs = []
             for k in keys[i:i + chunk]:
                 t, rec, refs = model_cases[k]
-                cs.append(coq_case(Case(D, refs, R), t, k[1], k[2]))
+                cs.append(coq_case(Case(D, refs, R), t, k[1], k[2], k[3]))
             terms.append(("c%d" % i, "[%s]" % ";\n ".join(cs)))
-        # one coqc process per core: coq_eval's default (len(terms) // 40) would put all ~45 large terms in a single process
+        ctx.log("model terms built: %d cases in %d terms" % (len(keys), len(terms)))
+        # one coqc process per core: coq_eval's default (len(terms) // 40) would put all ~55 large terms in a single process
         res = coq_eval(ctx, "From TV Require Import Fields.Encode.\nLocal Open Scope N_scope.\nLocal Open Scope string_scope.", terms,
                        shards=max(1, min(vlib.NCPU, len(terms))), timeout=1500)
         disagree = []
@@ -686,10 +753,12 @@ def run(ctx):
                 t, rec, refs = model_cases[k]
                 d = compare_model(t, rec, mv)
                 if d:
-                    disagree.append({"template": t.id, "round": k[1], "collector": k[2], "what": d, "rust": describe(t)["rust"]})
+                    disagree.append({"template": t.id, "round": k[1], "collector": k[2], "static_max_level": k[3], "what": d,
+                                     "rust": describe(t)["rust"]})
         rep.tie("correspondence:model-vs-implementation", not disagree, "%d of %d cases disagree" % (len(disagree), len(keys)), disagree[:1] or None)
         rep.extra["model_cases"] = len(keys)
-        ctx.log("model evaluated on %d cases, %d disagreements" % (len(keys), len(disagree)))
+        rep.extra["model_cases_static"] = n_static
+        ctx.log("model evaluated on %d cases (%d under the static cap), %d disagreements" % (len(keys), n_static, len(disagree)))
     except Exception as ex:  # ModelEvalError or an encoding problem: the tie is broken, the oracle has already run
         rep.tie("model-eval", False, str(ex)[:400])
     rep.extra["corpus_templates"] = len(tpls)
